@@ -4,7 +4,8 @@
 From Coq Require Import NArith ZArith List Bool String.
 From CB Require Import Cbor.CborCore Cbor.CborProofs Cbor.CborTotal Cbor.CborNorm
   Cbor.CborSchema Cbor.SchemaProofs Cbor.SchemaTyping Cbor.SchemaRoundtrip Cbor.TokenSchemas Cbor.TokenRoundtrip
-  Cbor.TokenAmount Cbor.TokenAmountProofs Gen.CborSchemas Cbor.GenTie.
+  Cbor.TokenAmount Cbor.TokenAmountProofs Gen.CborSchemas Cbor.GenTie
+  Cbor.DecimalConv Cbor.DecimalConvProofs Cbor.AmountForms Cbor.Header Cbor.HeaderProofs Cbor.FloatBits Cbor.FloatProofs Cbor.FloatSingle Cbor.CborDepth.
 Import ListNotations.
 Local Open Scope N_scope.
 
@@ -219,6 +220,181 @@ Theorem token_amount_json_roundtrip : forall a, amount_ok a = true ->
 Proof. exact json_roundtrip. Qed.
 Print Assumptions token_amount_json_roundtrip.
 
+(** ** Token amounts <-> rust_decimal::Decimal (try_from_rust_decimal / try_to_rust_decimal as coded,
+       including the digit-by-digit rescale loops of rust_decimal), for ALL decimals *)
+
+(** Exact: an accepted conversion preserves the number: m * 10^-scale = value * 10^-decimals, not negative *)
+Theorem token_amount_decimal_exact_sound : forall x d a, decimal_ok x = true -> try_from_decimal x d Exact = COk a ->
+  amt_decimals a = d /\ same_number (d_m x) (d_scale x) (amt_value a) d /\ (d_neg x = false \/ d_m x = 0).
+Proof. exact conv_exact_sound. Qed.
+Print Assumptions token_amount_decimal_exact_sound.
+
+(** ... and every decimal whose number is v * 10^-d (v a u64, d <= 28, not negative) converts to exactly (v, d), under both rules *)
+Theorem token_amount_decimal_exact_complete : forall x d v r, decimal_ok x = true -> d <= MAX_SCALE -> v <= U64MAX ->
+  (d_neg x = false \/ d_m x = 0) -> same_number (d_m x) (d_scale x) v d ->
+  try_from_decimal x d r = COk {| amt_value := v; amt_decimals := d |}.
+Proof. exact conv_exact_complete. Qed.
+Print Assumptions token_amount_decimal_exact_complete.
+
+(** Exact rejects every decimal that needs rounding at the requested number of decimals *)
+Theorem token_amount_decimal_rounding_rejected : forall x d, decimal_ok x = true -> d < d_scale x ->
+  d_m x mod 10 ^ (d_scale x - d) <> 0 -> exists e, try_from_decimal x d Exact = CErr e.
+Proof. exact conv_exact_rejects_rounding. Qed.
+Print Assumptions token_amount_decimal_rounding_rejected.
+
+(** AllowRounding = round half up on the magnitude (nearest, ties away from zero): full characterisation *)
+Theorem token_amount_decimal_allow_rounding : forall x d, decimal_ok x = true -> d < d_scale x ->
+  try_from_decimal x d AllowRounding =
+  let q := round_half_up (d_m x) (10 ^ (d_scale x - d)) in
+  if (d_neg x && negb (q =? 0)) || (U64MAX <? q) then CErr EValueOverflow
+  else COk {| amt_value := q; amt_decimals := d |}.
+Proof. exact conv_round_spec. Qed.
+Print Assumptions token_amount_decimal_allow_rounding.
+
+(** the rounded value is within half a unit in the last place of the exact quotient *)
+Theorem token_amount_rounding_nearest : forall m j, 0 < j -> let k := 10 ^ j in let q := round_half_up m k in
+  2 * (q * k) <= 2 * m + k /\ 2 * m < 2 * (q * k) + k.
+Proof. exact round_half_up_nearest. Qed.
+Print Assumptions token_amount_rounding_nearest.
+
+Theorem token_amount_rounding_exact_when_divisible : forall m k, 0 < k -> m mod k = 0 -> round_half_up m k * k = m.
+Proof. exact round_half_up_exact. Qed.
+Print Assumptions token_amount_rounding_exact_when_divisible.
+
+Theorem token_amount_decimal_rules_agree_without_rounding : forall x d, decimal_ok x = true -> d_scale x <= d ->
+  try_from_decimal x d AllowRounding = try_from_decimal x d Exact.
+Proof. exact conv_round_is_exact_when_no_rounding. Qed.
+Print Assumptions token_amount_decimal_rules_agree_without_rounding.
+
+(** ranges: an accepted result always has decimals = the request <= 28 and a u64 value; more than 28 decimals is always an error *)
+Theorem token_amount_decimal_ranges : forall x d r a, try_from_decimal x d r = COk a ->
+  amt_decimals a = d /\ d <= MAX_SCALE /\ amt_value a <= U64MAX.
+Proof. exact conv_ok_range. Qed.
+Print Assumptions token_amount_decimal_ranges.
+
+Theorem token_amount_decimal_beyond_scale : forall x d r, MAX_SCALE < d -> try_from_decimal x d r = CErr ERustDecimal.
+Proof. exact conv_beyond_scale. Qed.
+Print Assumptions token_amount_decimal_beyond_scale.
+
+(** try_to_rust_decimal and back *)
+Theorem token_amount_to_decimal_roundtrip : forall v d r, v <= U64MAX -> d <= MAX_SCALE ->
+  let x := {| d_neg := false; d_m := v; d_scale := d |} in
+  try_to_decimal {| amt_value := v; amt_decimals := d |} = Some x /\ decimal_ok x = true
+  /\ try_from_decimal x d r = COk {| amt_value := v; amt_decimals := d |}.
+Proof. exact to_decimal_roundtrip. Qed.
+Print Assumptions token_amount_to_decimal_roundtrip.
+
+Theorem token_amount_to_decimal_beyond_scale : forall a, MAX_SCALE < amt_decimals a -> try_to_decimal a = None.
+Proof. exact to_decimal_beyond_scale. Qed.
+Print Assumptions token_amount_to_decimal_beyond_scale.
+
+(** at a fixed number of decimals the number determines the value: the representation is unique *)
+Theorem token_amount_unique_at_decimals : forall v1 v2 d, same_number v1 d v2 d -> v1 = v2.
+Proof. exact amount_number_unique. Qed.
+Print Assumptions token_amount_unique_at_decimals.
+
+(** CBOR decimal fraction, tag 4 [exponent, mantissa]: both ranges are enforced exactly *)
+Theorem token_amount_cbor_neg_exponent_range : forall o mk k m,
+  sdec o s_TokenAmount mk (VTag 4 (VArray false [VNeg k; VPos m])) =
+  if (k <? 255) && (m <? 2 ^ 64) then Some (XList [XZ (- 1 - Z.of_N k); XN m]) else None.
+Proof. exact amount_cbor_neg_exponent. Qed.
+Print Assumptions token_amount_cbor_neg_exponent_range.
+
+Theorem token_amount_cbor_pos_exponent_range : forall o mk n m,
+  sdec o s_TokenAmount mk (VTag 4 (VArray false [VPos n; VPos m])) =
+  if (n =? 0) && (m <? 2 ^ 64) then Some (XList [XZ 0; XN m]) else None.
+Proof. exact amount_cbor_pos_exponent. Qed.
+Print Assumptions token_amount_cbor_pos_exponent_range.
+
+(** all three forms of one amount convert back to exactly that amount *)
+Theorem token_amount_three_forms : forall o v d r, v <= U64MAX -> d <= 28 ->
+  let a := {| amt_value := v; amt_decimals := d |} in
+  decode_typed s_TokenAmount o (encode (VTag 4 (VArray false [amount_exponent d; VPos v])))
+    = Some (XList [XZ (- Z.of_N d); XN v])
+  /\ (exists x, try_to_decimal a = Some x /\ d_m x = v /\ d_scale x = d /\ d_neg x = false
+                /\ try_from_decimal x d r = COk a)
+  /\ from_str_exact (to_string a) d = Some a.
+Proof. exact amount_three_forms. Qed.
+Print Assumptions token_amount_three_forms.
+
+(** ** Heads (ciborium-ll reader [pull] / writer [encode_hdr]) *)
+
+(** the reader fails on the argument exactly for the reserved additional information 28..30 or a truncated argument *)
+Theorem header_arg_rejected_iff : forall info r,
+  pull_arg info r = None <->
+  (28 <= info /\ info <> 31) \/ (24 <= info <= 27 /\ (List.length r < arg_width info)%nat).
+Proof. exact pull_arg_none_iff. Qed.
+Print Assumptions header_arg_rejected_iff.
+
+(** an accepted head occupies exactly 1, 2, 3, 5 or 9 bytes, as its additional information says *)
+Theorem header_consumes_exactly : forall bs h r, pull bs = Some (h, r) ->
+  exists b tl, bs = b :: tl /\ List.length bs = (head_size (b mod 32) + List.length r)%nat
+  /\ In (head_size (b mod 32)) [1; 2; 3; 5; 9]%nat.
+Proof. exact pull_consumes. Qed.
+Print Assumptions header_consumes_exactly.
+
+(** decode (encode h) = h for every header: all 64-bit arguments, indefinite lengths, break, all simple values, all float payloads *)
+Theorem header_roundtrip : forall h rest, hdr_okb h = true -> pull (encode_hdr h ++ rest) = Some (h, rest).
+Proof. exact pull_encode_hdr. Qed.
+Print Assumptions header_roundtrip.
+
+(** the writer's head is the shortest accepted head carrying the header *)
+Theorem header_encode_shortest : forall bs h r, Forall (fun b => b < 256) bs -> pull bs = Some (h, r) ->
+  (forall w b, h <> HFloat w b) -> (List.length (encode_hdr h) + List.length r <= List.length bs)%nat.
+Proof. exact encode_hdr_shortest. Qed.
+Print Assumptions header_encode_shortest.
+
+(** the reader has NO preferred-serialisation check: every argument is accepted in every width that holds it *)
+Theorem header_accepts_every_width : forall m info n rest h, 24 <= info <= 27 -> m < 7 ->
+  n < 256 ^ N.of_nat (arg_width info) -> hdr_of m n = Some h ->
+  pull (wide_head m info n ++ rest) = Some (h, rest).
+Proof. exact pull_accepts_any_width. Qed.
+Print Assumptions header_accepts_every_width.
+
+(** ** Floats as bit patterns *)
+
+(** decode (encode f) = f bit for bit, for EVERY 64-bit pattern, NaNs with any payload included *)
+Theorem float_roundtrip_bits : forall b, fdecode (fst (fencode b)) (snd (fencode b)) = b.
+Proof. exact float_roundtrip. Qed.
+Print Assumptions float_roundtrip_bits.
+
+Theorem float_narrowed_only_if_representable : forall b w p, fencode b = (w, p) ->
+  (w = 2 -> widen16 p = b) /\ (w = 4 -> widen32 p = b) /\ (w = 8 -> p = b).
+Proof. exact fencode_narrow_only_if_representable. Qed.
+Print Assumptions float_narrowed_only_if_representable.
+
+(** every double that a half-precision pattern widens to is written in 2 bytes, as that pattern (sweep of all 65536) *)
+Theorem float_half_shortest : forall h, h < 65536 -> is_snan16 h = false -> fencode (widen16 h) = (2, h).
+Proof. exact half_shortest. Qed.
+Print Assumptions float_half_shortest.
+
+(** a signalling half NaN widens to the quiet NaN (quiet bit set, payload kept): decode is not injective there *)
+Theorem float_half_snan_quieted : forall h, h < 65536 -> is_snan16 h = true -> fencode (widen16 h) = (2, h + 512).
+Proof. exact half_snan_quieted. Qed.
+Print Assumptions float_half_snan_quieted.
+
+(** binary32, normal numbers (exponent field 1..254; structural proof): the double a single widens to is never written
+    in 8 bytes, and when it takes 4 the payload is that single.  PARTIAL: single subnormals / infinities / NaNs are not covered
+    by a theorem (diffed only), hence the name *)
+Theorem float_single_shortest_partial : forall x, x < 2 ^ 32 -> 1 <= N.land (N.shiftr x 23) 255 <= 254 ->
+  fst (fencode (widen32 x)) = 2 \/ fencode (widen32 x) = (4, x).
+Proof. exact single_normal_not_wide. Qed.
+Print Assumptions float_single_shortest_partial.
+
+(** ** Nesting depth: the code has no explicit limit; the input length is the only bound *)
+
+(** the nesting depth of a decoded value is at most the number of bytes it occupies (every level costs a head byte) *)
+Theorem nesting_depth_bounded_by_input : forall bs v r a, decode_prefix bs = Ok v r a ->
+  (depth v + List.length r <= List.length bs)%nat.
+Proof. exact decode_depth_bounded. Qed.
+Print Assumptions nesting_depth_bounded_by_input.
+
+(** ... and the bound is reached up to one byte at EVERY depth: d nested one-element arrays around 0 occupy d+1 bytes and round-trip *)
+Theorem nesting_no_limit : forall d, exists a,
+  decode_top (encode (chain d)) = Ok (chain d) [] a /\ depth (chain d) = d /\ List.length (encode (chain d)) = S d.
+Proof. exact no_depth_limit. Qed.
+Print Assumptions nesting_no_limit.
+
 (** ** Non-vacuity *)
 Example roundtrip_nonvacuous :
   value_wfb (VMap false [(VPos 1, VArray false [VText [195; 169]; VNeg 23]); (VText [97], VTag 4 (VFloat 2 15360))]) = true.
@@ -264,3 +440,39 @@ Example amount_display_roundtrip_samples :
      (18446744073709551615, 28); (10, 5); (999, 2); (1000, 3); (4294967296, 10)] = true.
 Proof. vm_compute. reflexivity. Qed.
 Print Assumptions amount_nonvacuous.
+
+Example decimal_conv_nonvacuous :
+  decimal_ok (mk_dec false 12600 4) = true
+  /\ try_from_decimal (mk_dec false 12600 4) 2 Exact = COk (mk_amt 126 2)
+  /\ try_from_decimal (mk_dec false 12600 4) 1 Exact = CErr ELossOfPrecision
+  /\ try_from_decimal (mk_dec false 12600 4) 1 AllowRounding = COk (mk_amt 13 1)
+  /\ try_from_decimal (mk_dec false 12500 4) 1 AllowRounding = COk (mk_amt 13 1)
+  /\ try_from_decimal (mk_dec false 12499 4) 1 AllowRounding = COk (mk_amt 12 1)
+  /\ try_from_decimal (mk_dec true 4 2) 0 AllowRounding = COk (mk_amt 0 0)
+  /\ try_from_decimal (mk_dec true 6 1) 0 AllowRounding = CErr EValueOverflow
+  /\ try_from_decimal (mk_dec false 18446744073709551616 0) 0 Exact = CErr EValueOverflow
+  /\ try_from_decimal (mk_dec false 79228162514264337593543950335 0) 1 Exact = CErr EValueOverflow
+  /\ same_number 12600 4 126 2.
+Proof. repeat split; vm_compute; reflexivity. Qed.
+Print Assumptions decimal_conv_nonvacuous.
+
+Example header_nonvacuous :
+  pull [24; 5; 7] = Some (HPos 5, [7]) /\ encode_hdr (HPos 5) = [5] /\ hdr_okb (HFloat 2 15360) = true
+  /\ pull [28] = None /\ pull [25; 1] = None /\ pull [31] = None /\ pull [95] = Some (HBytes None, [])
+  /\ hdr_of 3 70000 = Some (HText (Some 70000)) /\ wide_head 3 27 70000 = [123; 0; 0; 0; 0; 0; 1; 17; 112].
+Proof. repeat split; vm_compute; reflexivity. Qed.
+Print Assumptions header_nonvacuous.
+
+Example float_nonvacuous :
+  fencode 4609434218613702656 = (2, 15872)            (* 1.5 *)
+  /\ fencode 4607182418800017409 = (8, 4607182418800017409)   (* 1.0 + 1 ulp *)
+  /\ fencode 3936146074321813504 = (4, 1)             (* smallest single subnormal 2^-149 *)
+  /\ fencode 4499096027743125504 = (2, 1)             (* smallest half subnormal 2^-24 *)
+  /\ fencode 4679235614791434240 = (2, 31743)         (* 65504 = largest finite half *)
+  /\ fencode 4679237813814689792 = (4, 1199566848)    (* 65520: not a half *)
+  /\ fencode 9221120237041090560 = (2, 32256)         (* quiet NaN, zero payload *)
+  /\ fencode 9218868437227405313 = (8, 9218868437227405313)   (* signalling NaN: 8 bytes, payload kept *)
+  /\ is_snan16 31745 = true /\ is_snan16 15360 = false
+  /\ N.land (N.shiftr 1199566848 23) 255 = 142 /\ widen32 1199566848 = 4679237813814689792.
+Proof. repeat split; vm_compute; reflexivity. Qed.
+Print Assumptions float_nonvacuous.
